@@ -58,7 +58,7 @@ func (c *c06) load(b []byte) {
 	c.pf("load %s => %s", hx(b), res)
 }
 
-func (c *c06) add(h *chainhash.Hash, prodIdx int64) {
+func (c *c06) add(h *chainhash.Hash, prodIdx int64) string {
 	res := "ok"
 	func() {
 		defer func() {
@@ -75,6 +75,7 @@ func (c *c06) add(h *chainhash.Hash, prodIdx int64) {
 	} else {
 		c.pf("add %s => %s", hx(h[:]), res)
 	}
+	return res
 }
 
 func (c *c06) look(v uint64) {
@@ -291,13 +292,15 @@ func TestVerifC06(t *testing.T) {
 			if c.rng.Intn(3) == 0 {
 				bad := *h
 				bad[c.rng.Intn(32)] ^= 1 << uint(c.rng.Intn(8))
-				c.add(&bad, -1)
-				if c.store.index != index(start-k) {
+				if c.add(&bad, -1) == "ok" {
 					// accepted (index had no trailing zeros): the store now
 					// holds a foreign secret; stop the honest run here.
 					c.state()
 					break
 				}
+				// rejected: the store must be unchanged, so the honest
+				// secret for the same position must still be accepted.
+				c.state()
 			}
 			c.add(h, int64(k))
 			k++
